@@ -57,8 +57,7 @@ def run(chk):
         "R1: every shipped estimator/bet returns Const or Arr(lag<=-1). R2: every test returns a history "
         "Arr(lag<=0,len=n). R3: a whole-sample value reaches the history only through a store at index -1 of "
         "the form `inf if <cond> else <same entry>`. R4: no entry depends on len(x) as a value. R5: the running "
-        "mean/variance helper is a causal append-builder (lag 0). R6: every operand of a multiplicative factor "
-        "other than the draw itself is predictable."
+        "mean/variance helper is a causal append-builder (lag 0)."
     )
     chk.trust(
         "npflow operator table (cumsum/cumprod causal; insert(a,0,c) shifts by one; prefix slice keeps lag; "
@@ -136,27 +135,6 @@ def run(chk):
                    "a whole-sample value flows into the history only through a store at index -1 of the form "
                    "`inf if <cond> else <same entry>` (truncation can only lower the last p-value)",
                    node=e.node, statement=norm(e.node)[:160], value=str(val))
-        # R6: operands of each multiplicative factor
-        cps = [c for c in walk_local(fr.fdef) if isinstance(c, ast.Call) and norm(c.func).endswith("cumprod")]
-        chk.need("C05.R6", len(cps), 1, f"cumulative product in {name}")
-        for cp in cps:
-            if not cp.args:
-                continue
-            for leaf in factor_leaves(cp.args[0]):
-                v = fr.expr_abs.get(id(leaf))
-                if v is None:
-                    raise AnalysisError(f"{name}: factor operand {norm(leaf)} was not evaluated")
-                if v is TOP:
-                    raise AnalysisError(f"{name}: factor operand {norm(leaf)} is Top")
-                if isinstance(v, Sc):
-                    ok = v.dep == "const"
-                elif isinstance(v, Arr):
-                    ok = v.lag <= -1 or (v.lag == 0 and v.data)
-                else:
-                    ok = False
-                chk.ob("C05.R6", W(f"NonnegMean.{name}"), f"operand:{norm(leaf)[:50]}", ok,
-                       "every operand of the multiplicative factor other than the current draw is predictable "
-                       "(depends on earlier draws only)", node=leaf, abstract=str(v))
 
 
 def thorough(chk):
